@@ -8,6 +8,7 @@ TARGETS = {
     "t_io": dict(variant="asan", srcs=["t_io.cc"], libs=RC),
     "t_faults": dict(variant="fuzzrel", srcs=["t_faults.cc"], libs=RC),
     "t_tet": dict(variant="asan", srcs=["t_tet.cc"], libs=RC),
+    "t_hex": dict(variant="asan", srcs=["t_hex.cc"], libs=RC),
     "t_handles": dict(variant="opt", srcs=["t_handles.cc"], libs="-lpthread"),
 }
 
@@ -261,6 +262,26 @@ CHECKS = {
         technique="rapidcheck tet histories + oriented simplicial-complex model + exhaustive per-cell label sweep",
         level_text="Model-based (oriented tets as vertex-identity tuples) and exhaustive per-state query sweep for the tetrahedral kernel.",
         level_note="split_edge/split_face are protected members and not covered.",
+    ),
+    "C16": dict(
+        kind="rc_program", target="t_hex", level="exploration",
+        quick=dict(workers=16, max_success=300, max_size=100, len_scale=0.4, timeout=900),
+        thorough=dict(workers=16, max_success=5000, max_size=100, len_scale=1.0, timeout=3600),
+        rule=("cases = random polycubes on a 4x3x3 lattice, each cube inserted through add_cell(8 vertices) in a generated "
+              "one of the 24 cube rotations (so shared faces pre-exist in other rotations), cells deleted and re-added "
+              "through add_cell(generated permutation of the six halffaces, check), invalid halfface lists (flipped / "
+              "doubled / foreign / dropped), wrong-valence adds, deletions of every kind, garbage collection, all four "
+              "deletion modes. After every op for EVERY cell: shape invariants, halffaces 2k/2k+1 disjoint, cyclic order "
+              "[2,4,3,5] around the first halfface and the orthogonal_orientation handedness rule around all six, "
+              "orientation / opposite_halfface_handle_in_cell / x,y,z accessors / get_oriented_halfface, "
+              "orthogonal_orientation == cross product (all 36 pairs), hex_vertices pattern (+ lap protocol), "
+              "cell_sheet_cells for all 6 directions, halfface_sheet_halffaces and adjacent_halfface_on_sheet against "
+              "the brute-force neighbour relation. non-trivial = a case ending with >=3 live cells in which an insertion "
+              "re-used existing faces or a permuted list was accepted; distinct = distinct program hash"),
+        assumptions=["vertex identity through lattice positions", "gated on the C01 oracle"],
+        technique="rapidcheck polycube histories + exhaustive per-cell convention / navigation sweep against brute-force adjacency",
+        level_text="Generated hexahedral states with every cell checked against the layout convention derived from brute-force in-cell adjacency.",
+        level_note="Lattice 4x3x3 (36 cells, 80 vertices).",
     ),
 }
 
